@@ -194,3 +194,71 @@ Definition finding_F16 (i : input) : bool :=
   match i with IMime ct => negb (wf_ct ct) | _ => false end.
 
 Definition findings (i : input) : list nat := if finding_F16 i then [16] else [].
+
+(* ---------------- the readable statement ---------------- *)
+Definition TextOk (ct : ctype) (bs : list N) (t : tres) : Prop :=
+  ct_type ct = sb "text" -> forall C, codec_of (declared_charset ct) = Some C -> t = whole C bs.
+
+Definition ChunksOk (n : nat) (cs : list chunk) (bs : list N) : Prop :=
+  Forall (fun c => c <> []) cs /\ Forall (fun c => length c <= n) cs /\ concat cs = bs.
+
+Definition IterOk (n : nat) (r : bres) (w : res (list N) exn) : Prop :=
+  match w with
+  | Ok bs => exists cs, r = Ok cs /\ ChunksOk n cs bs
+  | Raised e => r = Raised e
+  end.
+
+Definition JoinedOk (r : bres) (w : res (list N) exn) : Prop :=
+  match w with
+  | Ok bs => exists cs, r = Ok cs /\ concat cs = bs
+  | Raised e => r = Raised e
+  end.
+
+(* equal content types: same type, same subtype, same parameter dict *)
+Definition CtSame (a b : ctype) : Prop :=
+  ct_type a = ct_type b /\ ct_sub a = ct_sub b
+  /\ length (ct_params a) = length (ct_params b)
+  /\ forall kv, In kv (ct_params a) -> lookup (fst kv) (ct_params b) = Some (snd kv).
+
+Definition ReaderSpec (r : reader_in) (created : option exn) (rc : bool) (it1 : bres) (r1 : bool)
+                      (it2 : bres) (r2 : bool) : Prop :=
+  let k := r_kind r in
+  if r_buffer r then
+    match want k (r_data0 r) (r_pos0 r) (r_seek r) with
+    | Raised e => created = Some e
+    | Ok bs => created = None /\ rc = true /\ r1 = false /\ r2 = false
+               /\ exists cs, it1 = Ok cs /\ it2 = Ok cs /\ ChunksOk (r_chunk r) cs bs
+    end
+  else
+    created = None /\ rc = false
+    /\ IterOk (r_chunk r) it1 (want k (r_data1 r) (r_pos1 r) (r_seek r))
+    /\ IterOk (r_chunk r) it2
+         match start_of k (length (r_data1 r)) (r_pos1 r) (r_seek r) with
+         | Ok p => want k (r_data1 r) (pos_after (length (r_data1 r)) p) (r_seek r)
+         | Raised e => Raised e
+         end.
+
+Definition SnapSpec (r : reader_in) (copied : option exn) (same : bool) (c1 c2 : bres) (ra : bool) (orig : bres) : Prop :=
+  let k := r_kind r in
+  match want k (r_data0 r) (r_pos0 r) (r_seek r) with
+  | Raised e => copied = Some e
+  | Ok bs => copied = None /\ same = true /\ ra = false
+             /\ JoinedOk c1 (Ok bs) /\ JoinedOk c2 (Ok bs)
+             /\ JoinedOk orig (want k (r_data1 r) (r_pos1 r) (r_seek r))
+  end.
+
+Definition Spec (i : input) (o : obs) : Prop :=
+  match i, o with
+  | IText s, OText ct bytes text => text = Ok s /\ TextOk ct bytes text
+  | IJson d, OJson ct bytes => whole utf8 bytes = Ok d
+  | IChunks ct chunks, OChunks bytes text => bytes = concat chunks /\ TextOk ct (concat chunks) text
+  | ISplits cs data, OSplits runs =>
+      sum_runs runs = length (all_splits data)
+      /\ Forall (fun p => TextOk (text_ct cs) data (fst p)) runs
+  | IReader r, OReader created rc it1 r1 it2 r2 => ReaderSpec r created rc it1 r1 it2 r2
+  | ISnap r, OSnap copied same c1 c2 ra orig => SnapSpec r copied same c1 c2 ra orig
+  | IEq ta ca tb cb, OEq e ne =>
+      (e = true <-> CtSame ta tb /\ concat ca = concat cb) /\ ne = negb e
+  | IMime ct, OMime r => exists ct', r = Ok ct' /\ CtSame ct' ct
+  | _, _ => False
+  end.
